@@ -55,7 +55,7 @@ def plan(tier, seed):
         shards.append({"part": "scan", "lo": lo, "hi": lo + step, "n": n_entries, "tuple": 2,
                        "bound": f"trees<={n_entries} entries"})
     shards.append({"part": "feature", "tuple": 2, "bound": "feature trees"})
-    return {"shards": shards, "require_nonzero": ["convert:match", "convert:nomatch", "scan:partial", "scan:none", "regex", "glob"]}
+    return {"shards": shards, "require_nonzero": ["convert:match", "convert:nomatch", "scan:partial", "scan:none", "regex", "glob", "module_path-below-root"]}
 
 
 # ------------------------------------------------------------------------- (a) conversion
@@ -184,52 +184,57 @@ def check_tree(base, entries, tuple_size, res, only=None):
     files, dirs = materialise(base, entries)
     write_tree(base, {rel: source(fs) for rel, fs in files.items()}, dirs)
     root = os.path.join(base, "top")
-    un = observed(scan(root, root, exclusions=("nomatch",)))
-    for kind, pats in patterns_for(base, entries, tuple_size):
-        if only is not None and only != [kind, list(pats)]:
-            continue
-        if kind == "glob":
-            excluded = lambda p, ps=pats: any(glob_matches(g, p) for g in ps)  # noqa: E731
-            opts = {"exclusions": tuple(pats)}
-        else:
-            excluded = lambda p, ps=pats: any(re.match(g, p) for g in ps)  # noqa: E731
-            opts = {"exclusions": (), "regex_exclusions": tuple(pats)}
-        if kind == "regex":
-            opts = {"exclusions": None, "regex_exclusions": tuple(pats)}
-        m = model_scan(files, dirs, "top", "top", base, excluded)
-        out = call(lambda: observed(scan(root, root, **opts)))
-        if res is not None:
-            res.states += 1
-            res.transitions += 1
-            res.evaluations += 1
-            res.traces += 1
-            res.stats[kind] += 1
-            full = len(model_scan(files, dirs, "top", "top", base, None)["modules"])
-            left = len(m["modules"])
-            res.stats["scan:none" if left == full else "scan:all" if left <= 1 else "scan:partial"] += 1
-            if 1 < left < full:
-                res.nontrivial += 1
-        case_key = [kind, list(pats)]
-        if excluded(root):
-            # the scanned directory itself is excluded: nothing below it may appear
-            if out[0] == "OK" and len(out[1][0]) > 1:
-                viol.append(("excluded-root-still-scanned", case_key, ["top"], sorted(out[1][0])))
-            continue
-        if out[0] != "OK":
-            viol.append(("scan-raised", case_key, "an architecture", list(out[:2])))
-            continue
-        mods, edges, _ = out[1]
-        edges = drop_ancestor_edges(edges)
-        if mods != m["modules"]:
-            viol.append(("modules-after-exclusion", case_key, sorted(m["modules"]), sorted(mods)))
-            continue
-        if edges != drop_ancestor_edges(m["must"]):
-            viol.append(("imports-after-exclusion", case_key, sorted(map(list, drop_ancestor_edges(m["must"]))), sorted(map(list, edges))))
-            continue
-        # differential: survivors keep exactly what they had in the unfiltered scan
-        restricted = {(u, v) for (u, v) in drop_ancestor_edges(un[1]) if u in mods and v in mods}
-        if edges != restricted or not mods <= un[0]:
-            viol.append(("differs-from-unfiltered-scan-restricted-to-survivors", case_key, sorted(map(list, restricted)), sorted(map(list, edges))))
+    # module_path: the root and every directory directly below it (exclusions combined with a
+    # module_path below root_path)
+    mps = ["top"] + sorted(d for d in dirs if d.count("/") == 1)
+    for mp_rel in mps:
+        mp = os.path.join(base, mp_rel)
+        un = observed(scan(root, mp, exclusions=("nomatch",)))
+        for kind, pats in patterns_for(base, entries, tuple_size if mp_rel == "top" else 1):
+            case_key = [kind, list(pats)] + ([mp_rel] if mp_rel != "top" else [])
+            if only is not None and only != case_key:
+                continue
+            if kind == "glob":
+                excluded = lambda p, ps=pats: any(glob_matches(g, p) for g in ps)  # noqa: E731
+                opts = {"exclusions": tuple(pats)}
+            else:
+                excluded = lambda p, ps=pats: any(re.match(g, p) for g in ps)  # noqa: E731
+                opts = {"exclusions": None, "regex_exclusions": tuple(pats)}
+            m = model_scan(files, dirs, "top", mp_rel, base, excluded)
+            out = call(lambda: observed(scan(root, mp, **opts)))
+            if res is not None:
+                res.states += 1
+                res.transitions += 1
+                res.evaluations += 1
+                res.traces += 1
+                res.stats[kind] += 1
+                if mp_rel != "top":
+                    res.stats["module_path-below-root"] += 1
+                full = len(model_scan(files, dirs, "top", mp_rel, base, None)["modules"])
+                left = len(m["modules"])
+                res.stats["scan:none" if left == full else "scan:all" if left <= 1 else "scan:partial"] += 1
+                if 1 < left < full:
+                    res.nontrivial += 1
+            if excluded(mp):
+                # the scanned directory itself is excluded: nothing below it may appear
+                if out[0] == "OK" and any(x.startswith(mp_rel.replace("/", ".") + ".") for x in out[1][0]):
+                    viol.append(("excluded-root-still-scanned", case_key, [mp_rel], sorted(out[1][0])))
+                continue
+            if out[0] != "OK":
+                viol.append(("scan-raised", case_key, "an architecture", list(out[:2])))
+                continue
+            mods, edges, _ = out[1]
+            edges = drop_ancestor_edges(edges)
+            if mods != m["modules"]:
+                viol.append(("modules-after-exclusion", case_key, sorted(m["modules"]), sorted(mods)))
+                continue
+            if edges != drop_ancestor_edges(m["must"]):
+                viol.append(("imports-after-exclusion", case_key, sorted(map(list, drop_ancestor_edges(m["must"]))), sorted(map(list, edges))))
+                continue
+            # differential: survivors keep exactly what they had in the unfiltered scan
+            restricted = {(u, v) for (u, v) in drop_ancestor_edges(un[1]) if u in mods and v in mods}
+            if edges != restricted or not mods <= un[0]:
+                viol.append(("differs-from-unfiltered-scan-restricted-to-survivors", case_key, sorted(map(list, restricted)), sorted(map(list, edges))))
     return viol
 
 
@@ -246,7 +251,7 @@ def run_shard(shard, tier, seed):
         base = scratch_dir(f"c08-{shard.get('lo', 'f')}-{i}")
         try:
             for kind, key, exp, got in check_tree(base, entries, shard["tuple"], res):
-                rel_key = [key[0], [p.replace(base, "<base>") for p in key[1]]]
+                rel_key = [key[0], [p.replace(base, "<base>") for p in key[1]]] + key[2:]
                 res.violation(kind, {"part": "scan", "entries": entries, "key": rel_key}, exp, got)
             if i == 0:
                 res.sample({"entries": entries, "exclusions": ["*" + sorted(entries)[0]]})
@@ -267,7 +272,7 @@ def _check_case(case):
         return None
     base = scratch_dir("c08-replay")
     try:
-        key = [case["key"][0], [p.replace("<base>", base) for p in case["key"][1]]]
+        key = [case["key"][0], [p.replace("<base>", base) for p in case["key"][1]]] + list(case["key"][2:])
         v = check_tree(base, case["entries"], 2, None, only=key)
         if v:
             return (v[0][0], v[0][2], v[0][3])
